@@ -133,6 +133,12 @@ def _add_shared(g: dict, rng: random.Random) -> list[str]:
         g["ext"].append("drq")
         shared.append("drain")
     if rng.random() < 0.3:
+        # a cacheable node whose argument comes, from run to run, as a list, a set, a dict, a list of pairs, a tuple, a frozenset
+        g["nodes"].append({"kind": "fn", "name": "ct", "params": [{"name": "ctq"}], "outs": ["ct_o"], "cache": True})
+        g["order"].append(len(g["nodes"]) - 1)
+        g["ext"].append("ctq")
+        shared.append("container_types")
+    if rng.random() < 0.3:
         # a cacheable two-parameter node; the variant graph B holds the SAME function under the same node and output name but with its
         # two inputs wired crosswise (rename_inputs swap): equal graph-level inputs, different arguments - the entry must not be shared
         g["nodes"].append({"kind": "fn", "name": "sw", "params": [{"name": "swa"}, {"name": "swb"}], "outs": ["sw_o"], "cache": True})
@@ -241,11 +247,14 @@ def _started(proc) -> list[str]:
     return sorted(e.node_name for e in proc.events if type(e).__name__ == "NodeStartEvent")
 
 
-def _variant_values(base, variant: int):
+def _variant_values(base, variant: int, ri: int = 0):
     def f(graph):
         v = copy.deepcopy(base(graph))  # node functions may consume list arguments in place
         if "drq" in v or any(n == "dr" for n in getattr(graph, "nodes", {})):
             v["drq"] = [] if variant else [3, 1, 2]
+        if "ctq" in v or any(n == "ct" for n in getattr(graph, "nodes", {})):
+            # equal CONTENT in different container types (and dict-like vs pairs): different arguments, different keys
+            v["ctq"] = [[1, 2], {1, 2}, {"a": 1}, [("a", 1)], (1, 2), frozenset({1, 2})][(variant * 2 + ri) % 6]
         if variant:
             for k in sorted(v):
                 if isinstance(v[k], int):
@@ -303,7 +312,7 @@ def _run_mem(doc: dict) -> dict:
         g_b = _variant_graph(g_a, doc.get("variant"))
         for ri, run in enumerate(doc["runs"]):
             g = g_b if run.get("gv") else g_a  # two graphs sharing one cache
-            values = _variant_values(base_values, run["variant"])
+            values = _variant_values(base_values, run["variant"], ri)
             # reference: the same run on a runner without cache
             rbox: dict = {}
             wr = run_world(g, values, mode=run["runner"], cfg=run["cfg"], run_kwargs=dict(kw), processors_factory=lambda rt, b=rbox: b.setdefault("p", [SyncProc(rt, "ref")]))
@@ -368,7 +377,7 @@ def _run_mem(doc: dict) -> dict:
                         if owner and owner[1] in inv_args:
                             keys_of.setdefault(inv_args[owner[1]], set()).add(h["key"])
                     prev = h
-                elif k == "enter" and h["n"] in cacheable and h["n"] not in shared:
+                elif k == "enter" and h["n"] in cacheable and h["n"] not in shared and h["n"] != "ct":  # (ct: canonical text conflates list/tuple, set/frozenset)
                     ident = (h["n"], canon(h["a"]), flavour)
                     held = [K for K in keys_of.get(ident, ()) if offline.holds(K) and K not in excused]
                     n_before = enters_count.get(ident, 0)
